@@ -115,6 +115,15 @@ function genModule (rng, opts = {}) {
     sites.pluscoerce = { lo: pplo, hi: pphi, fn: 'sitePlusCoerce', mkArgs: 'userObj', ctor: 'RangeError' }
     add(`  return r${id}`)
     add('}')
+    if (opts.longLine) {
+      // a call site far to the right on its line (minified bundles, inlined data): columns beyond 16 bits
+      add('function siteLongLine(b, p) {')
+      sites.longline = { lo: add(`  const r${id} = '${'x'.repeat(70000)}'.length + p + b.boom()`), fn: 'siteLongLine', mkArgs: 'userObj', ctor: 'RangeError' }
+      sites.longline.hi = sites.longline.lo
+      add(`  return r${id}`)
+      add('}')
+      add('exports.siteLongLine = siteLongLine')
+    }
     add('function sitePlusLeadCoerce(b, p) {')
     const pllo = add(`  const q${id} = p`)
     const plhi = add('    + b')
@@ -351,7 +360,7 @@ function findMarker (content, marker) {
 module.exports = {
   id: 'C11',
   level: 'exploration',
-  rule: 'the repository\'s real main.js / js/source-map / js/stack-trace are loaded with the native module replaced by a shim that calls rwharness; generated CommonJS modules with throw sites on known lines (throw statement, TypeError from a null receiver inside an injected sequence on a two-line statement, a hook that throws on a marker, an error inside an eval-created frame, a nested closure, top-level code, an error whose multi-line message contains a line that reads like a frame, errors raised by the callee of a call chain broken over several lines: member chain, chain inside a `+`, `X.prototype.m` + `.call(` on separate lines, optional chain), placed directly under the root folder and under plain, nested, non-ASCII and hostile directory names, with ASCII and non-ASCII base names (and non-ASCII chained source names) (blanks and brackets, `$&` / `$\' ` / `$$`, regex metacharacters, node_modules/@scope) with various extensions, are rewritten through the caching Rewriter, compiled under the original file name with Module.prototype._compile and run; each error\'s stack is read through both code paths of getPrepareStackTrace (wrapping a user handler; formatting V8\'s string) and the frame of the rewritten file must carry the original path and a line inside the statement\'s span (with a chained inline map: orig.ts - named relatively or by an absolute path - and line+100); differential line oracle: the ORIGINAL module is also run under the same file name and every frame of the file must be reported, after translation, on exactly the line V8 itself reports for that frame in the original run; frames of other files unchanged; nothing throws. Real-world files: corpus files rewritten through the caching Rewriter, then 60 random positions of each rewritten text looked up through the package and compared with an independent decoder of the embedded map. On-disk lookups: getOriginalPathAndLineFromSourceMap over temporary files with inline / external / missing / invalid / absent maps, compared with an independent decoder where the lookup conventions agree (a token on the same line at or before the column). Histories: random sequences of rewrites (modified v1/v2, not modified, syntax error) over 5 file names, after each of which a lookup for every file must use the map of its most recent rewrite (positions unchanged when that rewrite was not modified or failed, i.e. when the caller serves the text as it is). distinct_nontrivial = distinct (module, site, path) stacks plus history lookups decided.',
+  rule: 'the repository\'s real main.js / js/source-map / js/stack-trace are loaded with the native module replaced by a shim that calls rwharness; generated CommonJS modules with throw sites on known lines (throw statement, TypeError from a null receiver inside an injected sequence on a two-line statement, a hook that throws on a marker, an error inside an eval-created frame, a nested closure, top-level code, a call site beyond column 65536 of its line, an error whose multi-line message contains a line that reads like a frame, errors raised by the callee of a call chain broken over several lines: member chain, chain inside a `+`, `X.prototype.m` + `.call(` on separate lines, optional chain), placed directly under the root folder and under plain, nested, non-ASCII and hostile directory names, with ASCII and non-ASCII base names (and non-ASCII chained source names) (blanks and brackets, `$&` / `$\' ` / `$$`, regex metacharacters, node_modules/@scope) with various extensions, are rewritten through the caching Rewriter, compiled under the original file name with Module.prototype._compile and run; each error\'s stack is read through both code paths of getPrepareStackTrace (wrapping a user handler; formatting V8\'s string) and the frame of the rewritten file must carry the original path and a line inside the statement\'s span (with a chained inline map: orig.ts - named relatively or by an absolute path - and line+100); differential line oracle: the ORIGINAL module is also run under the same file name and every frame of the file must be reported, after translation, on exactly the line V8 itself reports for that frame in the original run; frames of other files unchanged; nothing throws. Real-world files: corpus files rewritten through the caching Rewriter, then 60 random positions of each rewritten text looked up through the package and compared with an independent decoder of the embedded map. On-disk lookups: getOriginalPathAndLineFromSourceMap over temporary files with inline / external / missing / invalid / absent maps, compared with an independent decoder where the lookup conventions agree (a token on the same line at or before the column). Histories: random sequences of rewrites (modified v1/v2, not modified, syntax error) over 5 file names, after each of which a lookup for every file must use the map of its most recent rewrite (positions unchanged when that rewrite was not modified or failed, i.e. when the caller serves the text as it is). distinct_nontrivial = distinct (module, site, path) stacks plus history lookups decided.',
   assumptions: ['eval frames are only checked through the string-formatting path (the wrapping path has no file name for them)', 'the differential line oracle skips the hook-raised and eval sites (no counterpart frame in the original run)', 'lru-cache is a 12-line stand-in with get/set'],
   plan (ctx) {
     const shards = []
@@ -377,7 +386,7 @@ module.exports = {
       for (let i = 0; i < spec.count; i++) {
         const chain = i % 3 === 2
         const markerLines = i % 8 >= 5
-        const mod = genModule(rng.fork(i), { chain, multilineMessage: i % 4 === 1, markerLines, absoluteSource: chain && i === 5, nonAsciiSource: chain && i === 2 && spec.stream % 2 === 1 })
+        const mod = genModule(rng.fork(i), { chain, multilineMessage: i % 4 === 1, markerLines, absoluteSource: chain && i === 5, nonAsciiSource: chain && i === 2 && spec.stream % 2 === 1, longLine: i === 7 || (chain && i === 2 && spec.stream % 4 === 0) })
         const dirName = rng.pick(DIRS)
         const file = `${dirName === 'ROOT' ? '' : '/srv/c11/' + dirName}/${rng.pick(['mod', 'mod', 'módulo-ñ', '模块', 'm o d'])}_${spec.stream}_${i}${rng.pick(['.js', '.js', '.cjs', '', '.min.js'])}` // ROOT: a file directly under the file system root
         const pkg = sharedPkg
@@ -393,7 +402,7 @@ module.exports = {
         rep.evaluations += Object.keys(res).length
         for (const k of Object.keys(res)) rep.distinct.push(hashStr(mod.code + k))
         bump('stacks_read', counters.stacks); bump('frames_of_rewritten_files_checked', counters.frames); bump('frames_compared_with_v8_lines_of_the_original_run', counters.framesDiff || 0); bump(chain ? 'modules_chained' : 'modules_plain')
-        if (rep.samples.length < 1) rep.samples.push({ file, chained: chain, input: clip(mod.code, 900), sites: mod.sites })
+        if (rep.samples.length < 1 && mod.code.length < 20000) rep.samples.push({ file, chained: chain, input: clip(mod.code, 900), sites: mod.sites })
       }
       return rep
     }
